@@ -814,6 +814,9 @@ class PDDLWriter:
         out.write(f"\n )\n")
         goals_str: List[str] = []
         for g in (c.simplify() for c in self.problem.goals):
+            if g.is_true():
+                # a goal that simplifies to true asks for nothing (as for preconditions)
+                continue
             if g.is_and():
                 goals_str.extend(map(converter.convert, g.args))
             else:
